@@ -19,10 +19,16 @@ for d in sorted(glob.glob("/verif/seeded/C*-*"), key=lambda p: (p.split("/")[-1]
         caught = "**missed** (" + q.get("verdict", "?") + ")"
     if m.get("superseded"):
         caught = "no longer manifests (see §10): " + m["superseded"][:160] + "…"
-    rows.append(f"| {sid} | {summary} | {needs} | {caught} |")
-table = "| id | change (product code only; suite still 77/77) | needs, to manifest | reported by `./check <property>` |\n|---|---|---|---|\n" + "\n".join(rows)
+    fc = m.get("final_check") or {}
+    final = next((t for t in ("quick", "thorough") if (fc.get(t) or {}).get("exit") == 1), None)
+    final_txt = ("caught (" + final + ")") if final else ("not caught" if fc else "-")
+    rows.append(f"| {sid} | {summary} | {needs} | {caught} | {final_txt} |")
+table = "| id | change (product code only; suite still 77/77) | needs, to manifest | reported by `./check <property>` (scratch copy, when delivered) | final pass (applied to `/repo` itself, final harness) |\n|---|---|---|---|---|\n" + "\n".join(rows)
 p = "/verif/DESIGN.md"
 s = open(p).read()
-s = re.sub(r"(<!-- seeded-table-begin -->\n).*?(\n<!-- seeded-table-end -->)", lambda m_: m_.group(1) + table + m_.group(2), s, flags=re.S)
+assert s.count("<!-- seeded-table-begin -->") == 1 and s.count("<!-- seeded-table-end -->") == 1
+a = s.index("<!-- seeded-table-begin -->") + len("<!-- seeded-table-begin -->\n")
+b = s.index("<!-- seeded-table-end -->")
+s = s[:a] + table + "\n" + s[b:]
 open(p, "w").write(s)
 print(len(rows), "rows")
